@@ -30,6 +30,7 @@ class Obligation:
         self.model = None
         self.reason = ""
         self.facts = []               # relevant array-level well-formedness facts
+        self.parts = None             # [(label, formula)]: goal is their conjunction; split only for diagnosis
 
     @property
     def name(self):
@@ -243,3 +244,129 @@ def discharge(eng, ob, timeout_s=10, use_cvc5=True, both=False):
                 ob.reason = "cvc5 sat (no model extracted)"
     ob.seconds = time.time() - t0
     return ob
+
+
+# ---------------------------------------------------------------------------
+# text-level interface: obligations are serialised to SMT-LIB2 in the process that
+# generated them and solved in a pool of solver processes
+
+def serialize(eng, ob):
+    s = z3.Solver()
+    for a in eng.axioms() + list(ob.facts) + list(ob.pc):
+        s.add(a)
+    if ob.expect_sat:
+        s.add(ob.goal)
+        return s.to_smt2(), 0
+    g_all = z3.Bool("g!all")
+    s.add(z3.Implies(g_all, z3.Not(ob.goal)))
+    n = 0
+    if ob.parts and len(ob.parts) > 1:
+        for i, (_lab, f) in enumerate(ob.parts):
+            s.add(z3.Implies(z3.Bool("g!%d" % i), z3.Not(f)))
+        n = len(ob.parts)
+    return s.to_smt2(), n
+
+
+def _check(text, assumption, ms, mbqi):
+    s = z3.Solver()
+    s.set("timeout", ms)
+    s.set("random_seed", 0)
+    if mbqi:
+        s.set("smt.mbqi", True)
+        s.set("smt.ematching", False)
+    s.from_string(text)
+    r = s.check(*( [z3.Bool(assumption)] if assumption else []))
+    return s, r
+
+
+def _model_summary(m, limit=40):
+    out = {}
+    for d in m.decls():
+        n = d.name()
+        if n.startswith("p!") or n.startswith("opt!") or n.startswith("cv!"):
+            try:
+                out[n] = str(m[d])
+            except Exception:
+                pass
+        if len(out) >= limit:
+            break
+    return out
+
+
+def solve_text(text, nparts, timeout_s, expect_sat=False, use_cvc5=True, both=False):
+    """-> dict(status, backend, seconds, reason, model, model_text, failed_parts, unknown_parts)"""
+    t0 = time.time()
+    out = {"status": None, "backend": "z3", "reason": "", "model": {}, "model_text": "", "failed_parts": [], "unknown_parts": []}
+    if expect_sat:
+        s, r = _check(text, None, int(min(timeout_s, 1.5) * 1000), False)
+        if r == z3.unsat:
+            out["status"] = "failed"
+            out["reason"] = "cover unreachable: hypotheses are contradictory"
+        else:
+            out["status"] = "discharged"
+            out["reason"] = "hypotheses satisfiable" if r == z3.sat else "hypotheses not refutable within budget"
+        out["seconds"] = time.time() - t0
+        return out
+
+    def staged(assumption):
+        stages = [(int(min(timeout_s, 2) * 1000), False, "z3"), (int(timeout_s * 1000), True, "z3-mbqi"),
+                  (int(timeout_s * 1000), False, "z3")]
+        s, r, name = None, z3.unknown, "z3"
+        for ms, mbqi, name in stages:
+            s, r = _check(text, assumption, ms, mbqi)
+            if r != z3.unknown:
+                break
+        return s, r, name
+
+    s, r, name = staged("g!all")
+    out["backend"] = name
+    if r == z3.unsat:
+        out["status"] = "discharged"
+        if both and use_cvc5:
+            r2 = run_cvc5(text + "\n(assert g!all)\n", timeout_s)
+            if r2 == "sat":
+                out["status"] = "unknown"
+                out["reason"] = "back-end disagreement: z3 unsat, cvc5 sat"
+            elif r2 == "unsat":
+                out["backend"] += "+cvc5"
+    else:
+        if r == z3.sat:
+            out["status"] = "failed"
+            out["reason"] = "z3 sat"
+            m = s.model()
+            out["model"] = _model_summary(m)
+            out["model_text"] = str(m)[:6000]
+        else:
+            out["status"] = "unknown"
+            out["reason"] = "z3 unknown: " + s.reason_unknown()
+            if use_cvc5:
+                r2 = run_cvc5(text + "\n(assert g!all)\n", timeout_s)
+                if r2 == "unsat":
+                    out["status"] = "discharged"
+                    out["backend"] = "cvc5"
+                elif r2 == "sat":
+                    out["status"] = "failed"
+                    out["backend"] = "cvc5"
+                    out["reason"] = "cvc5 sat (no model extracted)"
+        if out["status"] != "discharged" and nparts:
+            # which conjunct?
+            for i in range(nparts):
+                si, ri, _n = staged("g!%d" % i)
+                if ri == z3.sat:
+                    out["failed_parts"].append(i)
+                    if not out["model"]:
+                        m = si.model()
+                        out["model"] = _model_summary(m)
+                        out["model_text"] = str(m)[:6000]
+                elif ri != z3.unsat:
+                    out["unknown_parts"].append(i)
+            if out["failed_parts"]:
+                out["status"] = "failed"
+                out["reason"] = "z3 sat (conjunct)"
+            elif not out["unknown_parts"] and out["status"] == "unknown":
+                # every conjunct proved separately
+                out["status"] = "discharged"
+                out["backend"] = "z3 (per conjunct)"
+                out["reason"] = ""
+    out["seconds"] = time.time() - t0
+    return out
